@@ -334,7 +334,10 @@ pub fn check_parse(bytes: &[u8], stats: &mut Stats, viol: &mut Vec<Violation>, s
                         && p.get_token() == &f.token[..]
                         && flat_opts(&p) == f.opts
                         && p.payload == f.payload;
-                    if !ok {
+                    // "exactly the fields that grammar defines" is stated for
+                    // version 1; what an implementation that accepts another
+                    // version makes of it is not
+                    if !ok && f.b0 >> 6 == 1 {
                         viol.push(Violation::new(
                             "C03",
                             "fields",
@@ -839,7 +842,11 @@ impl Server {
                     self.violations.push(Violation::new("C07", "error-preserves", "response vanished in apply_from_error".into()));
                     return;
                 };
-                if !ret {
+                // `ResponseType::UnKnown` is a placeholder without a wire
+                // value: whether it counts as "a code to apply" is left open
+                let placeholder = e.code == Some(ResponseType::UnKnown);
+                let err_class = e.code.map_or(false, |c| matches!(u8::from(MessageClass::Response(c)) >> 5, 4 | 5));
+                if !ret && !placeholder {
                     self.violations.push(Violation::new("C07", "error-result", "apply_from_error returned false although a response and a code exist".into()));
                     self.violations.push(Violation::new("C11", "renderable", format!("handling error {:?} could not be rendered", e.code)));
                 }
@@ -852,7 +859,10 @@ impl Server {
                     self.violations.push(Violation::new("C07", "error-preserves", "apply_from_error changed a correlation field".into()));
                 }
                 let code = u8::from(am.header.code);
-                if Some(am.header.code) != e.code.map(MessageClass::Response) {
+                // the reply takes the error's code; what a code that is not
+                // an error code (2.xx, the placeholder) turns into is not
+                // stated
+                if err_class && Some(am.header.code) != e.code.map(MessageClass::Response) {
                     self.violations.push(Violation::new("C07", "error-result", format!("code after apply_from_error is {:#x}, error carried {:?}", code, e.code)));
                 }
                 // (the wording of the diagnostic payload is not part of the
@@ -863,7 +873,7 @@ impl Server {
                 if strip(bm) != strip(am) {
                     self.violations.push(Violation::new("C07", "error-preserves", "apply_from_error changed options other than Content-Format".into()));
                 }
-                if code < 0x80 {
+                if code < 0x80 && err_class {
                     self.violations.push(Violation::new("C11", "renderable", format!("handling error rendered as non-error code {:#x}", code)));
                 } else {
                     stats.hit("c11.rendered-error");
@@ -923,8 +933,11 @@ impl Server {
             }
         }
         // a block refused for needing too large a jump leaves the buffer
-        // byte-identical
-        if errored {
+        // byte-identical.  "Refused": answered with an error that carries a
+        // code; a message the handler cannot answer at all (no reply was
+        // prepared for its type: the code-less not-handled error) is not a
+        // refusal of the block, whatever was done with its data before
+        if errored && matches!(arr.ireq, Some(HOut::Err(Some(_)))) {
             if let Some((n, _m, s)) = arr.block1 {
                 let end = n as usize * szx_size(s) + szx_size(s);
                 if end > b && end - b > 16 * 1024 {
